@@ -90,9 +90,11 @@ def run(chk, repo, tier):
     for p in returns(paths):
         ins = p.calls('field.insert')
         ok_w = len(ins) == 1 and ins[0].bound.get('weight') == S('weight') and ins[0].bound.get('intensity') == TRUE
-        lps = [lp for lp in p.state.loops if lp['func'] == f.key]
-        ok_r = bool(lps) and lps[0]['pre'].get('out') == S('out') and ins and ins[0].bound.get('out') == lps[0]['phi'].get('out') \
-            and isinstance(p.ret, Poly) and p.ret.single_atom() is not None and p.ret.single_atom()[0] == 'loop'
+        from .common import loop_accumulator
+        lp, var = loop_accumulator(p, ins[0].bound.get('out')) if ins else (None, None)
+        ok_r = lp is not None and lp['pre'].get(var) == S('out') \
+            and isinstance(p.ret, Poly) and p.ret.single_atom() is not None and p.ret.single_atom()[0] == 'loop' \
+            and p.ret.single_atom()[1] == lp['phi'][var].single_atom()[1]
     chk.ob('C07-b', 'E-accumulate', f.key, 'weight forwarded to every insert', ok_w, '', f.loc())
     chk.ob('C07-b', 'E-accumulate', f.key, 'accumulates into the caller\'s array and returns it', bool(ok_r), '', f.loc())
 
